@@ -40,6 +40,13 @@ func (fx *FnExec) calleeContract(cc *ssa.CallCommon) (*Contract, string) {
 		k := "functype:" + n.Obj().Pkg().Path() + "." + n.Obj().Name()
 		return fx.e.contracts[k], k
 	}
+	// a function passed as a parameter of the function under verification: contract `funcparam F.p`
+	if prm, ok := cc.Value.(*ssa.Parameter); ok && prm.Parent() == fx.fn {
+		k := "funcparam:" + fx.key + "." + prm.Name()
+		if c := fx.e.contracts[k]; c != nil {
+			return c, k
+		}
+	}
 	// a function stored in a struct field: contract `funcfield T.f`
 	if u, ok := cc.Value.(*ssa.UnOp); ok {
 		if fa, ok := u.X.(*ssa.FieldAddr); ok {
@@ -476,6 +483,13 @@ func (fx *FnExec) call(instr ssa.Instruction, cc *ssa.CallCommon, pos token.Pos)
 	for _, r := range splitResults(fx, result, resT) {
 		fx.assumeTypeInvOf(r, tTrue)
 	}
+	// a method re-establishes its receiver's representation invariant before it returns (obligation typeinv-exit
+	// of the callee), so the caller may rely on it afterwards
+	if recv != nil && !cc.IsInvoke() {
+		if callee := cc.StaticCallee(); callee != nil && callee.Signature.Recv() != nil && len(callee.Blocks) > 0 && callee.Pkg != nil && strings.HasPrefix(callee.Pkg.Pkg.Path(), repoMod) {
+			fx.assumeTypeInvOf(*recv, tTrue)
+		}
+	}
 	if fx.errflow {
 		fx.trackErr(result, resT, key, pos)
 	}
@@ -768,6 +782,20 @@ func (fx *FnExec) ret(x *ssa.Return) error {
 		results = append(results, fx.plain(fx.val(r)))
 	}
 	fx.retBlocks++
+	// a method re-establishes the representation invariant of its receiver (and of the object it is embedded in)
+	if fx.fn.Signature.Recv() != nil && len(fx.fn.Params) > 0 {
+		objs := []Val{fx.vals[fx.fn.Params[0]]}
+		if fx.outerVal != nil {
+			objs = append(objs, *fx.outerVal)
+		}
+		for _, ov := range objs {
+			if t, err := fx.typeInvFact(ov, &fx.cur); err != nil {
+				return err
+			} else if t != tTrue {
+				fx.oblige("typeinv-exit", "", sImp(sNot(fx.isNil(ov)), t), "the method leaves its receiver's representation invariant established", x.Pos())
+			}
+		}
+	}
 	for _, r := range results {
 		if t, err := fx.typeInvFact(r, &fx.cur); err != nil {
 			return err
@@ -813,6 +841,9 @@ func (fx *FnExec) ret(x *ssa.Return) error {
 			}
 			o := fx.oblige(class, lab, t, "postcondition: "+en.Text, x.Pos())
 			o.Props = con.Props
+		}
+		if con == fx.iface {
+			continue // the interface-level frame is stated over ghost views; the implementation's own contract carries its frame
 		}
 		if err := fx.frame(con, x); err != nil {
 			return err
@@ -903,9 +934,6 @@ func (fx *FnExec) frameFact(n string, h *Heap, byName map[string][]string) strin
 func (fx *FnExec) frameContract() *Contract {
 	if fx.con != nil && !fx.con.IsIface && fx.con.HasMod && !fx.con.ModAll {
 		return fx.con
-	}
-	if fx.iface != nil && fx.iface.HasMod && !fx.iface.ModAll {
-		return fx.iface
 	}
 	return nil
 }
